@@ -1,4 +1,5 @@
 """C20 -- results do not depend on the build profile; overflow is never silent."""
+import os
 from .common import *
 from . import divlib as DL
 from . import kernels as K
@@ -9,8 +10,8 @@ META = {
     "bounds": "MIR of the same source compiled under {overflow-checks, debug-assertions} = on/on (dev) versus off/off, on/off, off/on and the packed layout "
               "(quick: off/off and packed; thorough: all five); every public operation of C01-C15 in its Decimal/Decimal form and with u8 / i64 / i128 operands "
               "(thorough: all 9 types against the release compilation); both compilations are executed symbolically on the same inputs and every pair of paths must agree on "
-              "return-vs-panic and on the returned value; scales: quick subset; thorough all 361 pairs against the release compilation, boundary pairs + every 19th against the other four "
-              "(the full product was measured to run for more than 100 minutes and was cut down)",
+              "return-vs-panic and on the returned value; scales, n, exponent and leading-zero classes: the seeded / boundary subsets listed in the cases, in both tiers (deeper grids for the thorough "
+              "tier were tried three times and did not finish within 25-100 minutes; VERIF_C20_DEEP=1 selects them for a manual run)",
     "outside_claim": ["opt-level 0 vs 3 and LLVM code generation (MIR is upstream of both): only exercised by replaying every counterexample on the dev and the "
                       "release build of the native driver", "panic messages (only panic-vs-return is compared)"],
     "assumptions": ["builtin models listed in coverage.builtin_models; operator impls of core on primitive integers follow the calling crate's overflow-check setting "
@@ -28,6 +29,13 @@ RET = {"add": "Decimal", "sub": "Decimal", "mul": "Decimal", "div": "Decimal", "
        "checked_rem": "Option<Decimal>", "eq": "bool", "partial_cmp": "Option<Ordering>"}
 # known finding ids per operation: dev panics (arithmetic overflow check) where the unchecked build returns a wrapped value
 WRAP_SITES = {"add": "release-wrap-add-sub", "sub": "release-wrap-add-sub", "mul": "release-wrap-mul-int", "round": "release-wrap-round"}
+
+
+def deep(ctx):
+    """the thorough tier widens the set of compilations (all five) and of integer types (all nine against release); the per-operation
+    parameter grids (scale pairs, n, exponent classes) stay those of the quick tier: three successively smaller "deep" grids were
+    tried on 16 idle cores and none finished within 25-100 minutes (DESIGN.md 9.5), so they are not part of a registered command"""
+    return os.environ.get("VERIF_C20_DEEP") == "1"
 
 
 def configs(ctx):
@@ -134,13 +142,13 @@ def lookup(prog, op, shape, ty):
 
 
 def scale_sets(ctx, op, shape, cfg=None):
-    if ctx.tier == "thorough":
+    if deep(ctx):
         s19 = list(range(19))
-        pairs = [(p, q) for p in s19 for q in s19]
-        if cfg is not None and cfg != CFG_B["thorough"][0]:
-            # all 361 scale pairs against the release configuration; boundary pairs + every 7th against the other four (measured: the full
-            # product for all five configurations runs for more than 100 minutes)
-            pairs = [pq for i, pq in enumerate(pairs) if i % 19 == 0 or pq[0] in (0, 18) and pq[1] in (0, 18) or abs(pq[0] - pq[1]) <= 1 and pq[0] in (0, 9, 18)]
+        allp = [(p, q) for p in s19 for q in s19]
+        # boundary pairs + a stride over all 361: every 6th against the release compilation, every 19th against the other four (the full
+        # product, and a first reduction to all pairs against release only, both ran for far more than an hour on 16 cores)
+        step = 6 if (cfg is None or cfg == CFG_B["thorough"][0]) else 19
+        pairs = [pq for i, pq in enumerate(allp) if i % step == 0 or pq[0] in (0, 18) and pq[1] in (0, 18) or abs(pq[0] - pq[1]) <= 1 and pq[0] in (0, 9, 18)]
     else:
         s19 = [0, 1, 9, 18]
         pairs = [(0, 0), (0, 18), (18, 0), (18, 18), (3, 5), (9, 10), (10, 9), (1, 0)]
@@ -156,7 +164,7 @@ def run_float_spec(ctx, case):
     from . import C13
     res = Res(case["id"])
     sub = C13.cases(ctx)
-    if ctx.tier == "quick":
+    if (not deep(ctx)):
         sub = [c for i, c in enumerate(sub) if i % 12 == 0 or c["kind"] == "Erange" or c.get("E") in (0, 2047, 255)]
     sub = [c for i, c in enumerate(sub) if i % 6 == case.get("part", 0)]
     ctx.cfg_override = case["cfg"]
@@ -204,31 +212,33 @@ def run_case(ctx, case):
     runs = []
     if shape == "un":
         if op in ("round", "checked_round"):
-            ns = list(range(-128, 128)) if ctx.tier == "thorough" else [-128, -39, -38, -37, -20, -19, -3, -1, 0, 1, 5, 17, 18, 19, 127]
-            for p in ([0, 1, 9, 18] if ctx.tier == "quick" else range(19)):
+            ns = [-128, -39, -38, -37, -20, -19, -3, -1, 0, 1, 5, 17, 18, 19, 127]
+            if deep(ctx):
+                ns = sorted(set(ns) | set(range(-128, 128, 8)) | set(range(-40, 20, 3)))
+            for p in ([0, 1, 9, 18] if (not deep(ctx)) else range(19)):
                 for n in ns:
                     runs.append((p, None, n))
         elif op == "from_f64":
-            for E in ([0, 1, 948, 949, 1000, 1022, 1023, 1024, 1075, 1076, 1150, 1202, 1203, 2046, 2047] if ctx.tier == "quick" else range(0, 2048, 1)):
+            for E in ([0, 1, 948, 949, 1000, 1022, 1023, 1024, 1075, 1076, 1150, 1202, 1203, 2046, 2047] if (not deep(ctx)) else sorted(set([0, 1, 948, 949, 1000, 1022, 1023, 1024, 1075, 1076, 1150, 1202, 1203, 2046, 2047]) | set(range(0, 2048, 32)))):
                 for sg in (0, 1):
                     runs.append((E, sg, None))
         elif op == "to_f64":
-            for p in ([1, 9, 18] if ctx.tier == "quick" else range(1, 19)):
-                for lz in ([1, 64, 100, 127] if ctx.tier == "quick" else range(1, 128)):
+            for p in ([1, 9, 18] if (not deep(ctx)) else range(1, 19)):
+                for lz in ([1, 64, 100, 127] if (not deep(ctx)) else sorted(set([1, 64, 100, 127]) | set(range(1, 128, 8)))):
                     for sg in (0, 1):
                         runs.append((p, lz, sg))
             runs.append((0, None, None))
         elif op == "from_i64":
             runs.append((0, None, None))
         else:
-            for p in (range(19) if ctx.tier == "thorough" or op in ("magnitude",) else [0, 1, 9, 18]):
+            for p in (range(19) if deep(ctx) or op in ("magnitude",) else [0, 1, 9, 18]):
                 runs.append((p, None, None))
     else:
         ns = [None]
         if op in ("div_rounded", "mul_rounded"):
-            ns = ([0, 1, 9, 18, 19, 250] if ctx.tier == "quick" else list(range(0, 20)) + [37, 38, 39, 237, 238, 250, 255])
+            ns = ([0, 1, 9, 18, 19, 250] if (not deep(ctx)) else list(range(0, 20)) + [37, 38, 39, 237, 238, 250, 255])
         pq = scale_sets(ctx, op, shape, cfgB)
-        if ctx.tier == "thorough" and len(ns) > 6:
+        if deep(ctx) and len(ns) > 6:
             # every n for the boundary pairs, four representative n for all pairs (27 n x 361 pairs x 5 configurations does not finish in hours)
             few = [(p, q) for (p, q) in pq if p in (0, 9, 18) and q in (0, 9, 18)]
             for (p, q) in pq:
